@@ -3,7 +3,7 @@
    Print Assumptions.  Model: coq/C12/Reduce.v, coq/C12/Hash.v over coq/gen/ReduceParams.v. *)
 From Coq Require Import NArith List.
 From MirV Require Import gen.ReduceParams C12.Arr C12.Hash C12.Reduce C12.CodecProofs C12.DecodeProofs
-  C12.RoundTrip.
+  C12.RoundTrip C12.EncodeTotal.
 Import ListNotations.
 Local Open Scope N_scope.
 
@@ -84,3 +84,19 @@ Theorem reduce_encoded_extended_rejected : forall i2p0 buf0 data s x xs,
   encode data = Some s -> decode true i2p0 buf0 (s ++ x :: xs) = Reject.
 Proof. exact encode_extended. Qed.
 Print Assumptions reduce_encoded_extended_rejected.
+
+(* The encoder model is total: no dictionary chain walk, no loop ever exhausts its fuel (the hash
+   chains are finite, duplicate-free, pairwise disjoint lists of handed-out table elements; the
+   main loop advances at least one byte per iteration). *)
+Theorem reduce_encode_total : forall data, exists s, encode data = Some s.
+Proof. exact encode_total. Qed.
+Print Assumptions reduce_encode_total.
+
+(* The clause "a stream with bytes altered is reported as a failure" is not a theorem of a faithful
+   model: a one-byte alteration of an encoder output that is accepted (with the same data).  What
+   holds for altered streams is reduce_accept_integrity above. *)
+Theorem reduce_altered_same_data_example :
+  exists s, encode ex_data = Some s /\ ex_altered <> s /\ length ex_altered = length s
+            /\ decode true (fun _ => 0) (fun _ => 0) ex_altered = Accept ex_data.
+Proof. exact altered_same_data. Qed.
+Print Assumptions reduce_altered_same_data_example.
